@@ -431,8 +431,26 @@ func CreateIndex(s *sim.Src, name, table string, cols []string, fancy int, allow
 			}
 			spec.Exprs[fmt.Sprint(len(parts))] = e
 			p = e
+		} else if allowExpr && fancy >= 5 && s.Chance(1, 15, "quoted-rowid") {
+			// "rowid" in double quotes where the table has no such column: SQLite cannot
+			// index the rowid and falls back to the string literal
+			rn := []string{"rowid", "oid", "_rowid_", "ROWID"}[s.Draw(4, "rowidname")]
+			known := false
+			for _, cn := range cols {
+				if fold.Equal(cn, rn) {
+					known = true
+				}
+			}
+			p = `"` + rn + `"`
+			if !known {
+				spec.Exprs[fmt.Sprint(len(parts))] = "'" + rn + "'"
+			}
 		} else {
 			p = IdentRef(s, cols[k], fancy)
+			if fancy >= 5 && s.Chance(1, 12, "comment-after-column") {
+				// a comment ending in a number: "a -- 1" must not read as a - -1
+				p += []string{" -- 1\n", " /* 2 */", " --\n", " -- x 3\n"}[s.Draw(4, "commentkind")]
+			}
 		}
 		if s.Chance(1, 3, "ixcoll") {
 			p += " COLLATE " + drawCollation(s)
